@@ -75,6 +75,7 @@ func buildWorld(dir string, deliver bool) *world {
 	w.n2 = minichain.Build(minichain.Spec{Prev: w.n1.Hash(), Height: 112, Tag: 1, CbValue: -1})
 	w.n1c = minichain.Build(minichain.Spec{Prev: w.tipH, Height: 111, Tag: 2, CbValue: -1})
 	w.n1d = minichain.Build(minichain.Spec{Prev: w.tipH, Height: 111, Tag: 3, Txs: []*reftx.Tx{w.txT}, Fees: 1e6, CbValue: -1})
+	w.n1w = minichain.Build(minichain.Spec{Prev: w.tipH, Height: 111, Tag: 4, Txs: []*reftx.Tx{w.txW}, Fees: 1e6, CbValue: -1, Witness: true})
 	return w
 }
 
@@ -324,6 +325,9 @@ func (w *world) templates(xauthFriend, xauthOther []byte) []*tmpl {
 	pl, fs = cmpct(w.n1d, []int{0, 1})
 	add("cmpctblock-2pre", "cmpctblock", pl, fs...)
 
+	pl, fs = cmpct(w.n1w, []int{0, 1})
+	add("cmpctblock-wit", "cmpctblock", pl, fs...)
+
 	gbt := append([]byte{}, h106[:]...)
 	gbt = append(gbt, 3, 0, 0, 0)
 	add("getblocktxn", "getblocktxn", gbt, field{32, 1, 1, "count"}, field{33, 1, 1, "idx0"}, field{34, 1, 1, "idx1"}, field{35, 1, 1, "idx2"})
@@ -334,6 +338,12 @@ func (w *world) templates(xauthFriend, xauthOther []byte) []*tmpl {
 	tb, tf = txFields(w.txT, true, len(btx), "tx0.")
 	btx = append(btx, tb...)
 	add("blocktxn", "blocktxn", btx, append([]field{{32, 1, 60, "count"}}, tf...)...)
+
+	btw := append([]byte{}, n1h[:]...)
+	btw = append(btw, 1)
+	tb, tf = txFields(w.txW, true, len(btw), "tx0.")
+	btw = append(btw, tb...)
+	add("blocktxn-wit", "blocktxn", btw, append([]field{{32, 1, 60, "count"}}, tf...)...)
 
 	add("ping", "ping", []byte{1, 2, 3, 4, 5, 6, 7, 8})
 	add("pong", "pong", []byte{1, 2, 3, 4, 5, 6, 7, 8})
@@ -550,6 +560,11 @@ func (g *caseGen) families(t *tmpl, cx *ctxt, which string, wide bool) {
 			}
 		}
 	}
+	if has('p') {
+		countChild(t.pl, t.fields, func(name string, b []byte) {
+			g.add("count-child/"+name, t.name, cx, mev(t.cmd, b))
+		})
+	}
 	if has('s') {
 		for i := range t.pl {
 			for _, v := range g.subst {
@@ -559,6 +574,46 @@ func (g *caseGen) families(t *tmpl, cx *ctxt, which string, wide bool) {
 				b := append([]byte{}, t.pl...)
 				b[i] = v
 				g.add(fmt.Sprintf("subst/%d=%02x", i, v), t.name, cx, mev(t.cmd, b))
+			}
+		}
+	}
+}
+
+// parentChild lists (count field, length field of its first element) pairs: input
+// count -> first scriptSig length, output count -> first pkScript length, witness
+// item count -> first item length.
+func parentChild(fs []field) (out [][2]int) {
+	suffix := func(n, s string) bool { return len(n) >= len(s) && n[len(n)-len(s):] == s }
+	for i := 0; i+1 < len(fs); i++ {
+		p, c := fs[i].name, fs[i+1].name
+		if suffix(p, "nin") && suffix(c, "scriptsig") || suffix(p, "nout") && suffix(c, "pkscript") || suffix(p, "nwit") && suffix(c, "witem") {
+			out = append(out, [2]int{i, i + 1})
+		}
+	}
+	return
+}
+
+// A huge element count together with an element length of 2^64-k ("minus k": the read
+// position moves back by the size of what was just read, or not at all). Counts
+// near 2^32 are left out on purpose: a loop of that many cheap iterations lasts about
+// as long as the watchdog and the verdict would depend on the machine; 2^62+1 or
+// 2^63-1 iterations never finish anywhere.
+var hugeCounts = []cval{{"ff:2^62+1", csForm(1<<62+1, 9)}, {"ff:2^63-1", csForm(1<<63-1, 9)}}
+
+func minusLens() (out []cval) {
+	for k := 1; k <= 10; k++ {
+		out = append(out, cval{fmt.Sprintf("ff:2^64-%d", k), csForm(^uint64(0)-uint64(k)+1, 9)})
+	}
+	return
+}
+
+func countChild(pl []byte, fs []field, f func(name string, b []byte)) {
+	for _, pc := range parentChild(fs) {
+		for _, a := range hugeCounts {
+			for _, b := range minusLens() {
+				p := replaceField(pl, fs[pc[1]], b.enc) // later field first: offsets stay valid
+				p = replaceField(p, fs[pc[0]], a.enc)
+				f(fmt.Sprintf("%s=%s,%s=%s", fs[pc[0]].name, a.name, fs[pc[1]].name, b.name), p)
 			}
 		}
 	}
